@@ -21,6 +21,7 @@ func runC05(p *Prog, r *Report) {
 	c05Unpackers(p, r)
 	c05Combinators(p, r)
 	c05Relays(p, r)
+	c05DeclaredHeadrooms(p, r)
 }
 
 // implementations of an interface method among the loaded packages
@@ -853,7 +854,7 @@ func c05Relays(p *Prog, r *Report) {
 			info := fc.Info()
 			for _, uc := range fc.AllCalls() {
 				if uc.Fn != nil && uc.Fn.Name() == "UnpackInPlace" && len(uc.Call.Args) == 4 {
-					sel, ok := ast.Unparen(uc.Call.Args[2]).(*ast.SelectorExpr)
+					sel, ok := ast.Unparen(fc.ResolveUp(uc.Call.Args[2])).(*ast.SelectorExpr)
 					r.Check(ok && sel.Sel.Name == "packetBufFrontHeadroom" && objOf(info, sel.X) == fc.RecvObj(), rule, fc.Name+":unpack-start", uc.Pos(), "packet start is the relay's front headroom", "the unpacker is told a packet start other than the front headroom the packet was received at")
 				}
 			}
@@ -862,11 +863,11 @@ func c05Relays(p *Prog, r *Report) {
 			ast.Inspect(fc.Body, func(n ast.Node) bool {
 				switch x := n.(type) {
 				case *ast.SliceExpr:
-					if x.Low != nil && strings.HasSuffix(exprStr(x.Low), ".packetBufFrontHeadroom") {
+					if x.Low != nil && strings.HasSuffix(exprStr(fc.ResolveUp(x.Low)), ".packetBufFrontHeadroom") {
 						found = true
 					}
 				case *ast.IndexExpr:
-					if strings.HasSuffix(exprStr(x.Index), ".packetBufFrontHeadroom") {
+					if strings.HasSuffix(exprStr(fc.ResolveUp(x.Index)), ".packetBufFrontHeadroom") {
 						found = true
 					}
 				}
@@ -921,4 +922,104 @@ func c05Relays(p *Prog, r *Report) {
 	r.Check(gfold, rule, "clientgroups:folds-member-headroom", "", "client groups report the maximum headroom of their members", "client groups do not fold their members' packer headroom")
 	r.Count("relay_headroom_calls", nCalls)
 	r.Floor(rule, 20)
+}
+
+// c05DeclaredHeadrooms: the relays size their buffers from what a server / client *declares*
+// (Info().UnpackerHeadroom, Info().PackerHeadroom), while the bytes are claimed by the codec
+// object the same server / client hands out (NewUnpacker, NewSession). The two must be the same
+// headroom: the declaration of the server type is the Headroom its unpacker type declares, the
+// declaration of the client type is the Headroom its packer type declares.
+func c05DeclaredHeadrooms(p *Prog, r *Report) {
+	const rule = "C05-R7"
+	r.Rule(rule, "declared headrooms agree with the codecs handed out: for every type with an Info() method declaring UnpackerHeadroom (or PackerHeadroom) and a NewUnpacker (NewSession) method, the declared value is the same named headroom that the unpacker (packer) type created there returns as Headroom from its own *UnpackerInfo() (*PackerInfo())")
+	n := 0
+	for _, rel := range []string{"direct", "ss2022"} {
+		pkg := p.Pkg(rel)
+		// codec type -> the expression it declares as Headroom, per info-method name
+		codecDecl := func(t types.Type, method string) (ast.Expr, *FuncCtx) {
+			tn := namedTypeName(t)
+			if tn == "" {
+				return nil, nil
+			}
+			fc := p.LookupFunc(rel, tn, method)
+			if fc == nil {
+				return nil, nil
+			}
+			var val ast.Expr
+			ast.Inspect(fc.Body, func(x ast.Node) bool {
+				if kv, ok := x.(*ast.KeyValueExpr); ok {
+					if id, ok := kv.Key.(*ast.Ident); ok && id.Name == "Headroom" {
+						val = kv.Value
+					}
+				}
+				return true
+			})
+			return val, fc
+		}
+		p.AllFuncs(pkg, func(info *FuncCtx) {
+			if info.Obj == nil || info.Obj.Name() != "Info" || info.Decl == nil || info.Decl.Recv == nil || len(info.Decl.Recv.List) != 1 {
+				return
+			}
+			owner := recvTypeName(info.Decl.Recv.List[0].Type)
+			for _, side := range []struct{ field, maker, codecInfo string }{
+				{"UnpackerHeadroom", "NewUnpacker", "ServerUnpackerInfo"},
+				{"PackerHeadroom", "NewSession", "ClientPackerInfo"},
+			} {
+				var declared ast.Expr
+				ast.Inspect(info.Body, func(x ast.Node) bool {
+					if kv, ok := x.(*ast.KeyValueExpr); ok {
+						if id, ok := kv.Key.(*ast.Ident); ok && id.Name == side.field {
+							declared = kv.Value
+						}
+					}
+					return true
+				})
+				maker := p.LookupFunc(rel, owner, side.maker)
+				if declared == nil || maker == nil {
+					continue
+				}
+				// codec types created in the maker: static types of composite literals and call results
+				minfo := maker.Info()
+				seen := map[string]bool{}
+				ast.Inspect(maker.Body, func(x ast.Node) bool {
+					e, ok := x.(ast.Expr)
+					if !ok {
+						return true
+					}
+					switch e.(type) {
+					case *ast.CompositeLit, *ast.CallExpr:
+					default:
+						return true
+					}
+					t := minfo.TypeOf(e)
+					if t == nil {
+						return true
+					}
+					if pt, ok := t.Underlying().(*types.Pointer); ok {
+						t = pt.Elem()
+					}
+					tn := namedTypeName(t)
+					if tn == "" || seen[tn] || namedTypePkg(t) != mp(rel) {
+						return true
+					}
+					val, cfc := codecDecl(t, side.codecInfo)
+					if val == nil {
+						return true
+					}
+					seen[tn] = true
+					do, co := objOf(info.Info(), declared), objOf(cfc.Info(), val)
+					if do == nil || co == nil || do.Parent() != do.Pkg().Scope() || co.Parent() != co.Pkg().Scope() {
+						return true // not both named package-level headrooms: decided by value elsewhere (R1), not here
+					}
+					n++
+					r.Check(do == co, rule, fmt.Sprintf("%s.%s:%s-is-%s's", rel, owner, side.field, tn), p.posStr(declared.Pos()),
+						"declares "+do.Name()+", the headroom of the "+tn+" it hands out",
+						owner+".Info() declares "+side.field+" "+do.Name()+" but the "+tn+" it hands out needs "+co.Name()+": relays size the packet buffer from the declaration, so the other side's packer is given too little room (negative packet start) or the formula wastes/misplaces it")
+					return true
+				})
+			}
+		})
+	}
+	r.Count("declared_headroom_pairs", n)
+	r.Floor(rule, 3)
 }
